@@ -481,9 +481,8 @@ func families() []famCase {
 		}
 		add(fmt.Sprintf("P%d", n), gen.PathG(n), 2, (n+1)/2, 2, ci, 1)
 	}
-	// wheels: hub + rim cycle of length r (gen.Wheel(n) has n vertices)
-	for _, n := range []int{5, 6, 7, 8, 10} {
-		r := n - 1
+	// wheels: hub + rim cycle of length r (gen.Wheel(r) has r+1 vertices)
+	for _, r := range []int{3, 4, 5, 6, 7, 9} {
 		chi := 3
 		if r%2 == 1 {
 			chi = 4
@@ -492,10 +491,10 @@ func families() []famCase {
 		if r == 3 {
 			om = 4
 		}
-		add(fmt.Sprintf("wheel%d", n), gen.Wheel(n), om, r/2, chi, r, 3)
+		add(fmt.Sprintf("wheel-rim%d", r), gen.Wheel(r), om, r/2, chi, r, 3)
 	}
 	add("petersen", gen.Kneser(5, 2), 2, 4, 3, 4, 3)
-	add("kneser6_2", gen.Kneser(6, 2), 3, 5, 4, 6, 6)
+	add("kneser6_2", gen.Kneser(6, 2), 3, 5, 4, 7, 6)
 	add("kneser7_3", gen.Kneser(7, 3), 2, 15, 3, -1, 4)
 	add("grotzsch", gen.Mycielski(gen.Cycle(5)), 2, 5, 4, 5, 3)
 	add("mycielski2(C5)", gen.Mycielski(gen.Mycielski(gen.Cycle(5))), 2, -1, 5, -1, -1)
